@@ -1,7 +1,10 @@
 package cache
 
 import (
+	"context"
 	"time"
+
+	"reservoir/utils/duration"
 )
 
 // C15: happens-before race analysis over pairs of operations that run concurrently in the
@@ -131,4 +134,61 @@ func HarnessRaceConfigChange() {
 	if n > 0 && vInterposed() > 0 {
 		vReach("notification-ran-during-store")
 	}
+}
+
+// HarnessRaceJanitorLoop: the janitor's own goroutine (ticker loop) against the goroutines
+// that talk to it: interval-change listeners (one per change), the operator's stop, and a
+// store on the request path while a cycle runs.  The janitor loop is started and waits; then
+// two interval changes, a ticker tick (a full cleanup cycle inside the loop goroutine) and the
+// stop happen with their goroutines scheduled in a chosen order.  Channel sends/receives and
+// close are happens-before edges.
+func HarnessRaceJanitorLoop() {
+	resetMetrics()
+	vSetSysMem(1 << 40)
+	cfg := newCfg(1 << 30)
+	var mem *MemoryCache[vmeta]
+	var file *FileCache[vmeta]
+	if symChoice(2) == 0 {
+		mem = NewMemoryCache[vmeta](cfg, 50, 1<<30, time.Hour, 2, context.Background())
+	} else {
+		file = NewFileCache[vmeta](cfg, "var/vcache", 1<<30, time.Hour, 2, context.Background())
+	}
+	vRunPendingAt(0) // the janitor loop starts and waits
+	vClockFreeze(true)
+	now := time.Now()
+	vRaceBegin()
+	change := func(m int) {
+		cfg.Cache.CleanupInterval.Stage(duration.Duration(time.Duration(m) * time.Minute))
+		cfg.Cache.CleanupInterval.CommitStaged()
+	}
+	change(5)
+	if symChoice(2) == 1 {
+		vRunPending() // listener 1 hands over, the loop takes it
+		vReach("first-change-taken-before-second")
+	}
+	change(7)
+	if symChoice(2) == 1 {
+		vTick() // the ticker fires: the loop will run a cleanup cycle when scheduled
+		vReach("tick")
+	}
+	if symChoice(2) == 1 {
+		// a store on the request path before the loop goroutine gets to run
+		if mem != nil {
+			mem.Cache(vKeys[0], &symReader{data: []byte{1}, failAt: -1}, now.Add(time.Hour), vmeta{})
+		} else {
+			file.Cache(vKeys[0], &symReader{data: []byte{1}, failAt: -1}, now.Add(time.Hour), vmeta{})
+		}
+		vReach("store")
+	}
+	vRunPending()
+	if symChoice(2) == 1 {
+		if mem != nil {
+			mem.Destroy()
+		} else {
+			file.Destroy()
+		}
+		vReach("stopped")
+		vRunPending()
+	}
+	vRaceEnd()
 }
